@@ -32,6 +32,10 @@ use srtla_core::connection::BATCH_SEND_SIZE;
 /// loops until the whole batch is away. A no-progress send (`Ok(0)`) is treated
 /// as an error so the link is retried rather than livelocked.
 pub async fn send_all_datagrams(socket: &BatchUdpSocket, bufs: &[&[u8]]) -> std::io::Result<()> {
+    #[cfg(all(feature = "verif-hooks", unix))]
+    if verif_fail::take(socket.as_raw_fd()) {
+        return Err(std::io::Error::other("verif-hooks: injected send failure"));
+    }
     let total = bufs.len();
     let mut sent = 0;
     while sent < total {
@@ -48,4 +52,38 @@ pub async fn send_all_datagrams(socket: &BatchUdpSocket, bufs: &[&[u8]]) -> std:
         }
     }
     Ok(())
+}
+
+/// Verification hook (feature `verif-hooks`, off by default, add-only):
+/// deterministic send-failure injection. `fail_next(fd)` makes the next
+/// `send_all_datagrams` on that socket return an error without sending.
+#[cfg(all(feature = "verif-hooks", unix))]
+#[allow(dead_code)]
+pub mod verif_fail {
+    use std::cell::RefCell;
+    use std::os::fd::RawFd;
+
+    thread_local! {
+        static FAIL: RefCell<Vec<RawFd>> = const { RefCell::new(Vec::new()) };
+    }
+
+    pub fn fail_next(fd: RawFd) {
+        FAIL.with(|f| f.borrow_mut().push(fd));
+    }
+
+    pub fn clear() {
+        FAIL.with(|f| f.borrow_mut().clear());
+    }
+
+    pub(super) fn take(fd: RawFd) -> bool {
+        FAIL.with(|f| {
+            let mut v = f.borrow_mut();
+            if let Some(pos) = v.iter().position(|x| *x == fd) {
+                v.swap_remove(pos);
+                true
+            } else {
+                false
+            }
+        })
+    }
 }
